@@ -1,8 +1,745 @@
-(* C13, first clause: visualize is total on what the dumper writes (show = all / untrusted, and the raw row generator). *)
+(* C13, first clause: visualize is total on what the dumper writes (the row generator, show = all, show = untrusted).
+   1. ranks: the tree get_tree builds from a state get_state emitted is `good` (every node of an object sits strictly
+      above the nodes of, or references to, its parts), by induction over the C05 fragment (vok_good);
+   2. graph: a ranked tree has bounded depth through references and no cycle (good_fits), every reference of any tree
+      get_tree builds resolves (root_refs_resolve); the audit of every node completes and does not depend on the fuel left
+      or the ids on the stack (unsafe_total, unsafe_indep);
+   3. walk yields, without error, a pre-order forest in which a fully safe row has only fully safe rows below it (walk_ok);
+   4. _traverse_tree accepts such a forest whenever hidden rows are exactly fully safe rows (forest_lvl): show = all and
+      show = untrusted; show = trusted is refuted in coq/props/C13.v (D24). *)
 From Skv Require Import PyStrFacts CodecGuards CodecWfFacts PyValInd NodeInd TreeIds TreeWf GraphAudit ConstructFacts Families.
-From Skv Require Import CodecMemberFacts CodecTreeFacts CodecShareFacts CodecFacts CodecRootFacts VisTotalPre VisTotalLocal.
+From Skv Require Import CodecMemberFacts CodecTreeFacts CodecShareFacts CodecFacts CodecRootFacts.
 From Skv Require Import Unsafe UnsafeFacts AuditFacts Walk WalkFacts.
 From Coq Require Import Lia.
+
+(* ================= what walk / the audit need of one node; ranks ================= *)
+Definition is_jstr (j : json) : bool := match j with JStr _ => true | _ => false end.
+(* a child that is not a raw JSON leaf *)
+Definition leaf_plain (n : node) : bool := match n with Leaf _ (LRaw _) => false | _ => true end.
+
+Definition nice (h : hdr) (subs : list node) : bool :=
+  is_jstr (h_class h) && is_jstr (h_module h)
+  && match h_kind h with
+     | KJson => is_jstr (h_aux h) && match subs with [] => true | _ => false end
+     | KSlice => forallb is_leaf subs && pstr_eqb (h_tag h) (s "_general.SliceNode")
+     | KFunction => match subs with [] => true | _ => false end
+     | KFunctionV0 | KMethod | KRandomGeneratorV0 => false
+     | KDict => forallb leaf_plain subs && match subs with [] => false | _ => true end
+     | _ => forallb leaf_plain subs
+     end.
+
+(* ---- ranks: a node of an object of the value sits strictly above the nodes (or references) of its parts ---- *)
+Section Good.
+  Variable base : Z.
+  Variable Objs : pval -> Prop.
+
+  Inductive good : nat -> node -> Prop :=
+  | good_leaf r sl l : good r (Leaf sl l)
+  | good_ref r sl w : Objs w -> (need w <= r)%nat -> good r (Ref sl (key (pid w)))
+  | good_obj r h subs w : Objs w -> h_id h = Some (key (pid w)) -> (need w <= r)%nat -> nice h subs = true ->
+      Forall (good (need w - 1)) subs -> good r (Node h subs)
+  | good_alloc r h subs z : (base <= z)%Z -> h_id h = Some (key z) -> nice h subs = true -> (1 <= r)%nat ->
+      Forall (good (r - 1)) subs -> good r (Node h subs).
+
+  Lemma good_mono : forall n r r', good r n -> (r <= r')%nat -> good r' n.
+  Proof.
+    induction n as [h0 subs0 IH|sl i|sl l] using node_ind'; intros r r' Hg Hr; inversion Hg; subst.
+    - eapply good_obj; eauto. lia.
+    - eapply good_alloc; eauto; [lia|]. rewrite Forall_forall in *. intros x Hx. eapply IH; [exact Hx|eauto|lia].
+    - constructor; [assumption|lia].
+    - constructor.
+  Qed.
+End Good.
+
+
+(* ================= the tree built from a dumped state is ranked ================= *)
+
+(* ---- list facts that do not depend on the section ---- *)
+Lemma vl_dget_none_notin {A} t (acc : list (pstr * A)) : ~ In t (map fst acc) -> dget t acc = None.
+Proof.
+  induction acc as [|[t' j'] acc IH]; cbn [map fst dget In]; intros H; [reflexivity|].
+  destruct (pstr_eqb t t') eqn:Eq; [apply pstr_eqb_eq in Eq; subst; tauto|]. apply IH. tauto.
+Qed.
+
+Lemma vl_content_states f : forall items acc st cont st',
+  Forall (fun kv => is_prop (snd kv) = false /\ k_val (fst kv) <> None) items ->
+  NoDup (map fst acc ++ map (fun kv => ktext (fst kv)) items) ->
+  content_of f items acc st = Ok (cont, st') ->
+  exists js, states_of f (map snd items) st = Ok (js, st') /\ cont = acc ++ combine (map (fun kv => ktext (fst kv)) items) js.
+Proof.
+  induction items as [|[k x] items IH]; intros acc st cont st' Hf Hnd H; cbn [content_of] in H.
+  - injection H as <- <-. exists []. split; [reflexivity|]. cbn. rewrite app_nil_r. reflexivity.
+  - inversion Hf as [|? ? [Hp Hk] Hf']; subst. cbn [fst snd] in Hp, Hk. rewrite Hp in H.
+    destruct (f x st) as [[j st1]|] eqn:Ef; [|discriminate]. cbn [bind] in H.
+    destruct (k_val k) as [sc|] eqn:Ek; [|congruence].
+    cbn [map fst] in Hnd. unfold ktext in Hnd at 1. rewrite Ek in Hnd.
+    rewrite jset_fresh in H.
+    2:{ apply vl_dget_none_notin. intro Hin. apply NoDup_remove_2 in Hnd. apply Hnd. apply in_or_app. left. exact Hin. }
+    destruct (IH (acc ++ [(key_text sc, j)]) st1 cont st' Hf') as [js [Hs Hc]].
+    { rewrite map_app. cbn [map fst]. rewrite <- app_assoc. cbn [app].
+      clear -Hnd. revert Hnd. generalize (map fst acc) as a, (map (fun kv : dkey * pval => ktext (fst kv)) items) as b, (key_text sc) as t.
+      intros a b t H. induction a as [|y a IHa]; cbn [app] in *; [exact H|].
+      inversion H as [|? ? Hy Hr]; subst. constructor; [|apply IHa; exact Hr].
+      intro Hin. apply Hy. apply in_app_or in Hin. apply in_or_app. destruct Hin as [Hin|[<-|Hin]]; [left; exact Hin|right; left; reflexivity|right; right; exact Hin]. }
+    { exact H. }
+    exists (j :: js). cbn [map snd states_of]. rewrite Ef. cbn [bind]. rewrite Hs. cbn [bind]. split; [reflexivity|].
+    rewrite Hc. cbn [map fst combine]. unfold ktext at 2. rewrite Ek. rewrite <- app_assoc. reflexivity.
+Qed.
+
+Lemma vl_plain_of_notleaf ns : Forall (fun n => notleaf n = true) ns -> forallb leaf_plain ns = true.
+Proof.
+  induction 1 as [|n ns Hn Hr IH]; [reflexivity|]. cbn [forallb]. rewrite IH, andb_true_r.
+  destruct n; [reflexivity|reflexivity|discriminate Hn].
+Qed.
+
+Section Local.
+  Variable D : denv.
+  Variable F : cfacts.
+  Variable E : env.
+  Variable base : Z.
+  Variable Objs : pval -> Prop.
+  Hypothesis Ofun : forall a b, Objs a -> Objs b -> pid a = pid b -> a = b.
+  Hypothesis Oid : forall a, Objs a -> (0 < pid a < base)%Z.
+  Hypothesis Hreg : reg_ok (e_reg E) (e_cur E) = true.
+  Let proto : json := JInt (e_cur E).
+
+  Definition PV (v : pval) : Prop :=
+    forall st j st', get_state D v st = Ok (j, st') -> (base <= d_next st)%Z ->
+      (d_next st <= d_next st')%Z /\
+      forall fuel m sl n m', get_tree fuel E proto [] sl m j = Ok (n, m') -> memo_lt m (d_next st) ->
+        memo_lt m' (d_next st') /\ good base Objs (need v) n /\ notleaf n = true.
+
+  (* what get_tree returns for a state, relative to the allocator bound B' after the dump of that state *)
+  Definition Out (r : nat) (B' : Z) (n : node) (m' : memo) : Prop :=
+    memo_lt m' B' /\ good base Objs r n /\ notleaf n = true.
+
+  (* the carrier of an id: an object of the value of rank r, or an object the dumper allocated *)
+  Definition own (id : Z) (r : nat) : Prop :=
+    (exists w, Objs w /\ pid w = id /\ need w = r) \/ (base <= id)%Z.
+
+  Lemma good_own id r h subs : own id r -> h_id h = Some (key id) -> nice h subs = true -> (1 <= r)%nat ->
+    Forall (good base Objs (r - 1)) subs -> good base Objs r (Node h subs).
+  Proof.
+    intros [[w [Hw [Hp Hn]]]|Hb] Hid Hnice Hr Hsubs.
+    - subst id r. eapply good_obj; eauto.
+    - eapply good_alloc; eauto.
+  Qed.
+
+  Lemma own_obj v : Objs v -> own (pid v) (need v).
+  Proof. intros Hv. left. exists v. auto. Qed.
+
+  (* ---- the Ref branch of get_tree, shared by every kind ---- *)
+  Lemma wrap v c mo l fields tag k B B' :
+    Objs v -> dget (s "__id__") fields = None -> In (l, tag) frag_loaders -> kind_of_class tag = Some k ->
+    (B <= B')%Z ->
+    (forall fuel m sl n m', build E (get_tree fuel E proto) sl [] tag k m (node_state c mo l fields (pid v)) = Ok (n, m') ->
+       memo_lt m B -> Out (need v) B' n m') ->
+    forall fuel m sl n m', get_tree fuel E proto [] sl m (node_state c mo l fields (pid v)) = Ok (n, m') ->
+      memo_lt m B -> Out (need v) B' n m'.
+  Proof.
+    intros Hv Hf Hl Hk HB Hnode fuel m sl n m' H Hm. destruct fuel as [|fuel]; [discriminate H|].
+    unfold proto in H. rewrite (gt_step E Hreg _ _ _ _ _ _ _ _ _ _ Hf Hl Hk) in H. destruct (memo_mem (key (pid v)) m) eqn:Hmem.
+    - injection H as <- <-. split; [eapply memo_lt_le; eauto|]. split; [|reflexivity]. apply good_ref; [exact Hv|lia].
+    - eapply Hnode; eauto.
+  Qed.
+
+  (* ---- values whose node has no child node ---- *)
+  Lemma leaf_PV v c mo l fields tag k (haux : hdr -> hdr) subs B B' :
+    Objs v -> dget (s "__id__") fields = None -> In (l, tag) frag_loaders -> kind_of_class tag = Some k ->
+    (forall h, h_id (haux h) = h_id h) ->
+    (forall sl, nice (haux (mkh sl k tag (pid v) c mo JNull)) subs = true) ->
+    (forall x, In x subs -> exists sl lf, x = Leaf sl lf) ->
+    (forall rec sl m n m', build E rec sl [] tag k m (node_state c mo l fields (pid v)) = Ok (n, m') ->
+       exists h, node_init sl k tag [] true m (node_state c mo l fields (pid v)) JNull = Ok (h, m') /\ n = Node (haux h) subs) ->
+    (B <= B')%Z -> (base <= B)%Z ->
+    forall fuel m sl n m', get_tree fuel E proto [] sl m (node_state c mo l fields (pid v)) = Ok (n, m') ->
+      memo_lt m B -> Out (need v) B' n m'.
+  Proof.
+    intros Hv Hf Hl Hk Haux Hnice Hsubs Hb HB Hbase. pose proof (Oid _ Hv) as Hid.
+    apply (wrap v c mo l fields tag k B B'); try assumption.
+    intros fuel m sl n m' H Hm. destruct (Hb _ _ _ _ _ H) as [h [Hi ->]].
+    rewrite init_eq in Hi by (try assumption; lia). injection Hi as <- <-.
+    split; [apply memo_lt_cons; [lia|eapply memo_lt_le; eauto]|]. split; [|reflexivity].
+    apply (good_own (pid v)); [apply own_obj; exact Hv|rewrite Haux; reflexivity|apply Hnice|apply need_pos|].
+    rewrite Forall_forall. intros x Hx. destruct (Hsubs x Hx) as [sl0 [lf ->]]. apply good_leaf.
+  Qed.
+
+  Lemma scalar_PV id sc : Objs (PScalar id sc) -> PV (PScalar id sc).
+  Proof.
+    intros Hv st j st' H Hb. cbn [get_state] in H. injection H as <- <-. split; [lia|].
+    unfold json_state.
+    apply (leaf_PV (PScalar id sc) _ _ _ _ (s "_general.JsonNode") KJson (fun h => set_aux h (JStr (json_text sc))) [] (d_next st) (d_next st));
+      try assumption; try reflexivity; try lia.
+    - cbn; tauto.
+    - intros x [].
+    - intros rec sl m n m' H. unfold build in H.
+      destruct (node_init _ _ _ _ _ _ _ _) as [[h m0]|]; [|discriminate H]. cbn [bind] in H.
+      match type of H with context [jindex ?j0 (GetTree.K "content")] =>
+        change (jindex j0 (GetTree.K "content")) with (Ok (A:=json) (JStr (json_text sc))) in H end.
+      cbn [bind] in H. injection H as <- <-. eauto.
+  Qed.
+
+  Lemma func_PV id mo c : Objs (PFunc id mo c) -> PV (PFunc id mo c).
+  Proof.
+    intros Hv st j st' H Hb. cbn [get_state] in H. injection H as <- <-. split; [lia|].
+    apply (leaf_PV (PFunc id mo c) _ _ _ _ (s "_general.FunctionNode") KFunction (fun h => h) [] (d_next st) (d_next st));
+      try assumption; try reflexivity; try lia.
+    - cbn; tauto.
+    - intros x [].
+    - intros rec sl m n m' H. unfold build in H.
+      destruct (node_init _ _ _ _ _ _ _ _) as [[h m0]|]; [|discriminate H]. cbn [bind] in H. injection H as <- <-. eauto.
+  Qed.
+
+  Lemma type_PV id mo c : Objs (PType id mo c) -> PV (PType id mo c).
+  Proof.
+    intros Hv st j st' H Hb. cbn [get_state] in H. injection H as <- <-. split; [lia|].
+    unfold type_state.
+    apply (leaf_PV (PType id mo c) _ _ _ _ (s "_general.TypeNode") KType (fun h => h) [] (d_next st) (d_next st));
+      try assumption; try reflexivity; try lia.
+    - cbn; tauto.
+    - intros x [].
+    - intros rec sl m n m' H. unfold build in H.
+      destruct (node_init _ _ _ _ _ _ _ _) as [[h m0]|]; [|discriminate H]. cbn [bind] in H. injection H as <- <-. eauto.
+  Qed.
+
+  Lemma sbound_next a st ja st1 : sbound_json a st = Ok (ja, st1) -> d_next st1 = d_next st.
+  Proof. destruct a as [[| | | |]|]; cbn [sbound_json]; intros H; try discriminate H; injection H as <- <-; reflexivity. Qed.
+
+  Lemma slice_PV id a b c : Objs (PSlice id a b c) -> PV (PSlice id a b c).
+  Proof.
+    intros Hv st j st' H Hb. cbn [get_state] in H.
+    destruct (sbound_json a st) as [[ja st1]|] eqn:Ea; [|discriminate H]. cbn [bind] in H.
+    destruct (sbound_json b st1) as [[jb st2]|] eqn:Eb; [|discriminate H]. cbn [bind] in H.
+    destruct (sbound_json c st2) as [[jc st3]|] eqn:Ec; [|discriminate H]. cbn [bind] in H.
+    injection H as <- <-. apply sbound_next in Ea, Eb, Ec. split; [lia|].
+    apply (leaf_PV (PSlice id a b c) _ _ _ _ (s "_general.SliceNode") KSlice (fun h => h)
+             [Leaf (SOne (GetTree.K "start")) (LRaw ja); Leaf (SOne (GetTree.K "stop")) (LRaw jb); Leaf (SOne (GetTree.K "step")) (LRaw jc)]
+             (d_next st) (d_next st3));
+      try assumption; try reflexivity; try lia.
+    - cbn; tauto.
+    - intros x [<-|[<-|[<-|[]]]]; eauto.
+    - intros rec sl m n m' H. unfold build in H.
+      destruct (node_init _ _ _ _ _ _ _ _) as [[h m0]|]; [|discriminate H]. cbn [bind] in H.
+      set (cj := JObj [(CodecDump.K "start", ja); (CodecDump.K "stop", jb); (CodecDump.K "step", jc)]) in H.
+      match type of H with context [jindex ?j0 (GetTree.K "content")] =>
+        change (jindex j0 (GetTree.K "content")) with (Ok (A:=json) cj) in H end.
+      cbn [bind] in H.
+      change (jindex cj (GetTree.K "start")) with (Ok (A:=json) ja) in H.
+      change (jindex cj (GetTree.K "stop")) with (Ok (A:=json) jb) in H.
+      change (jindex cj (GetTree.K "step")) with (Ok (A:=json) jc) in H.
+      cbn [bind] in H. injection H as <- <-. eauto.
+  Qed.
+
+  (* ---- leaves that own a zip member: arrays, sparse matrices (reading the member succeeded by hypothesis) ---- *)
+  Lemma next_write f b st : d_next (if has_member f st then st else write_member f b st) = d_next st.
+  Proof. destruct (has_member f st); reflexivity. Qed.
+
+  Lemma arr_PV id gen mo c tok : Objs (PArr id gen mo c tok) -> PV (PArr id gen mo c tok).
+  Proof.
+    intros Hv st j st1 H Hb. cbn [get_state] in H. injection H as <- <-. rewrite next_write. split; [lia|].
+    apply (leaf_PV (PArr id gen mo c tok) _ _ _ _ (s "_numpy.NdArrayNode") KNdArray (fun h => set_aux h (JStr (GetTree.K "numpy")))
+             [Leaf (SOne (GetTree.K "content")) LBytes] (d_next st) (d_next st));
+      try assumption; try reflexivity; try lia.
+    - cbn; tauto.
+    - intros x [<-|[]]; eauto.
+    - intros rec sl m n m' H. unfold build in H.
+      destruct (node_init _ _ _ _ _ _ _ _) as [[h m0]|]; [|discriminate H]. cbn [bind] in H.
+      match type of H with context [jindex ?j0 (GetTree.K "type")] =>
+        change (jindex j0 (GetTree.K "type")) with (Ok (A:=json) (JStr (CodecDump.K "numpy"))) in H end.
+      cbn [bind] in H. change (jstr_eqb (JStr (CodecDump.K "numpy")) (GetTree.K "numpy")) with true in H. cbn iota in H.
+      match type of H with context [jindex ?j0 (GetTree.K "file")] =>
+        change (jindex j0 (GetTree.K "file")) with (Ok (A:=json) (JStr (npy_name id))) in H end.
+      cbn [bind] in H. destruct (read_member E (JStr (npy_name id))) as [[]|]; [|discriminate H]. cbn [bind] in H.
+      injection H as <- <-. eauto.
+  Qed.
+
+  Lemma sparse_PV id mo c tok : Objs (PSparse id mo c tok) -> PV (PSparse id mo c tok).
+  Proof.
+    intros Hv st j st1 H Hb. cbn [get_state] in H. injection H as <- <-. rewrite next_write. split; [lia|].
+    apply (leaf_PV (PSparse id mo c tok) _ _ _ _ (s "_scipy.SparseMatrixNode") KSparse (fun h => set_aux h (JStr (GetTree.K "scipy")))
+             [Leaf (SOne (GetTree.K "content")) LBytes] (d_next st) (d_next st));
+      try assumption; try reflexivity; try lia.
+    - cbn; tauto.
+    - intros x [<-|[]]; eauto.
+    - intros rec sl m n m' H. unfold build in H.
+      destruct (node_init _ _ _ _ _ _ _ _) as [[h m0]|]; [|discriminate H]. cbn [bind] in H.
+      match type of H with context [jindex ?j0 (GetTree.K "type")] =>
+        change (jindex j0 (GetTree.K "type")) with (Ok (A:=json) (JStr (CodecDump.K "scipy"))) in H end.
+      cbn [bind] in H. change (jstr_eqb (JStr (CodecDump.K "scipy")) (GetTree.K "scipy")) with true in H. cbn [negb] in H. cbn iota in H.
+      match type of H with context [jindex ?j0 (GetTree.K "file")] =>
+        change (jindex j0 (GetTree.K "file")) with (Ok (A:=json) (JStr (npz_name id))) in H end.
+      cbn [bind] in H. destruct (read_member E (JStr (npz_name id))) as [[]|]; [|discriminate H]. cbn [bind] in H.
+      injection H as <- <-. eauto.
+  Qed.
+
+  (* ---- lists of positions built one after the other ---- *)
+  Lemma gen_local l : Forall PV l ->
+    forall st js st', states_of (fun x s0 => get_state D x s0) l st = Ok (js, st') -> (base <= d_next st)%Z ->
+      (d_next st <= d_next st')%Z /\ length js = length l /\
+      forall fuel m sls ns m', sub_gen (get_tree fuel E proto []) (combine sls js) m = Ok (ns, m') ->
+        length sls = length l -> memo_lt m (d_next st) ->
+        memo_lt m' (d_next st') /\ Forall (fun n => notleaf n = true) ns /\
+        forall r, (forall x, In x l -> (need x <= r)%nat) -> Forall (good base Objs r) ns.
+  Proof.
+    induction 1 as [|x l Hx Hl IH]; intros st js st' H Hb; cbn [states_of] in H.
+    - injection H as <- <-. split; [lia|]. split; [reflexivity|]. intros fuel m sls ns m' Hs Hlen Hm.
+      destruct sls; [|discriminate Hlen]. cbn [combine sub_gen] in Hs. injection Hs as <- <-.
+      split; [exact Hm|]. split; [constructor|]. intros r _. constructor.
+    - inv_bind H. destruct (Hx _ _ _ E0 Hb) as [Hn1 Hx1]. destruct (IH _ _ _ E1 ltac:(lia)) as [Hn2 [Hlen2 IH1]].
+      split; [lia|]. split; [cbn [length]; congruence|].
+      intros fuel m sls ns m' Hs Hlen Hm. destruct sls as [|sl sls]; [discriminate Hlen|]. cbn [length] in Hlen.
+      cbn [combine sub_gen] in Hs.
+      destruct (get_tree fuel E proto [] sl m j) as [[n1 m1]|] eqn:Eg; [|discriminate Hs]. cbn [bind] in Hs.
+      destruct (sub_gen _ (combine sls l0) m1) as [[ns2 m2]|] eqn:Eg2; [|discriminate Hs]. cbn [bind] in Hs.
+      injection Hs as <- <-.
+      destruct (Hx1 _ _ _ _ _ Eg Hm) as [Hlt1 [Hg1 Hnl1]].
+      destruct (IH1 _ _ _ _ _ Eg2 ltac:(lia) Hlt1) as [Hlt2 [Hnl2 Hg2]].
+      split; [exact Hlt2|]. split; [constructor; assumption|].
+      intros r Hr. constructor.
+      + eapply good_mono; [exact Hg1|]. apply Hr. left. reflexivity.
+      + apply Hg2. intros y Hy. apply Hr. right. exact Hy.
+  Qed.
+
+  (* list / tuple / set: the Node branch (also used for the key_types list, an object the dumper creates itself) *)
+  Lemma seq_local q id c mo l st0 l0 st' r :
+    own id r -> (0 < id)%Z -> Forall PV l ->
+    states_of (fun x s0 => get_state D x s0) l st0 = Ok (l0, st') -> (base <= d_next st0)%Z ->
+    (forall x, In x l -> (need x <= r - 1)%nat) -> (1 <= r)%nat ->
+    forall fuel m sl B n m',
+      build E (get_tree fuel E proto) sl [] (seq_tag q) (seq_kind q) m
+        (node_state c mo (seq_loader q) [(CodecDump.K "content", JArr l0)] id) = Ok (n, m') ->
+      memo_lt m B -> (id < B)%Z -> (B <= d_next st0)%Z -> Out r (d_next st') n m'.
+  Proof.
+    intros Hown Hid Hl E0 Hb Hneed Hr fuel m sl B n m' H Hm HidB HB.
+    destruct (gen_local l Hl _ _ _ E0 Hb) as [Hnext [Hlen HG0]].
+    set (ld := seq_loader q) in *. set (tag := seq_tag q) in *. set (k := seq_kind q) in *.
+    assert (Hbd : build E (get_tree fuel E proto) sl [] tag k m (node_state c mo ld [(CodecDump.K "content", JArr l0)] id)
+            = do (h, m0) <- node_init sl k tag [] true m (node_state c mo ld [(CodecDump.K "content", JArr l0)] id) JNull;
+              do (ns, m1) <- sub_list (get_tree fuel E proto) [] (GetTree.K "content") m0 l0;
+              Ok (Node h (or_empty (GetTree.K "content") LEmptyList ns), m1)).
+    { unfold k, tag, ld. destruct q; reflexivity. }
+    rewrite Hbd, init_eq in H by (try reflexivity; lia). cbn [bind] in H. clear Hbd.
+    rewrite sub_list_gen, <- combine_const in H.
+    destruct (sub_gen _ _ (key id :: m)) as [[ns m1]|] eqn:Es; [|discriminate H]. cbn [bind] in H. injection H as <- <-.
+    destruct (HG0 _ _ _ _ _ Es) as [Hlt [Hnl Hg]].
+    { rewrite map_length. exact Hlen. }
+    { apply memo_lt_cons; [lia|]. eapply memo_lt_le; eauto. }
+    split; [exact Hlt|]. split; [|reflexivity].
+    apply (good_own id); [exact Hown|reflexivity| |exact Hr|].
+    - unfold nice. cbn [mkh h_class h_module h_kind is_jstr andb].
+      assert (Hp : forallb leaf_plain (or_empty (GetTree.K "content") LEmptyList ns) = true).
+      { destruct ns as [|n1 ns']; [reflexivity|]. cbn [or_empty]. apply vl_plain_of_notleaf. exact Hnl. }
+      unfold k. destruct q; exact Hp.
+    - destruct ns as [|n1 ns']; cbn [or_empty]; [constructor; [apply good_leaf|constructor]|]. apply Hg. exact Hneed.
+  Qed.
+
+  Lemma seq_PV q id c l : Objs (PSeq q id (s "builtins") c false l) -> Forall PV l -> PV (PSeq q id (s "builtins") c false l).
+  Proof.
+    intros Hv Hl st j st1 H Hb. cbn [get_state] in H.
+    destruct (states_of _ l st) as [[l0 st']|] eqn:E0; [|discriminate]. cbn [bind] in H. injection H as <- <-.
+    destruct (gen_local l Hl _ _ _ E0 Hb) as [Hnext _]. split; [exact Hnext|].
+    pose proof (Oid _ Hv) as Hid. cbn [pid] in Hid.
+    set (v := PSeq q id (s "builtins") c false l).
+    change (forall fuel m sl n m', get_tree fuel E proto [] sl m
+               (node_state c (s "builtins") (seq_loader q) [(CodecDump.K "content", JArr l0)] (pid v)) = Ok (n, m') ->
+              memo_lt m (d_next st) -> Out (need v) (d_next st') n m').
+    apply (wrap v c (s "builtins") (seq_loader q) _ (seq_tag q) (seq_kind q)); try assumption; try reflexivity;
+      [destruct q; cbn; tauto|destruct q; reflexivity|].
+    intros fuel m sl n m' H Hm.
+    apply (seq_local q id c (s "builtins") l st l0 st' (need v) (own_obj v Hv) ltac:(lia) Hl E0 Hb) with (fuel := fuel) (m := m) (sl := sl) (B := d_next st);
+      try assumption; try lia.
+    - intros x Hx. pose proof (max_map_in (fun x => need x) x l Hx). cbn [need v]. cbn beta in *. lia.
+    - apply need_pos.
+  Qed.
+
+  (* ---- dict family ---- *)
+  Lemma kt_PV ks tvs : Forall2 (fun k tv => ktv D k = Some tv) ks tvs -> Forall (keyok D F Objs) ks ->
+    Forall PV tvs /\ forall x, In x tvs -> (need x <= 1)%nat.
+  Proof.
+    induction 1 as [|k tv ks tvs Hk Hr IH]; intros Hkeys; [split; [constructor|intros x []]|].
+    inversion Hkeys as [|? ? [sc [tv' [_ [_ [Ekt [Ho _]]]]]] Hk']; subst. rewrite Hk in Ekt. injection Ekt as <-.
+    destruct (IH Hk') as [IH1 IH2]. unfold ktv in Hk. destruct (dget _ _) as [tid|]; [|discriminate]. injection Hk as <-.
+    split; [constructor; [apply type_PV; exact Ho|exact IH1]|]. intros x [<-|Hx]; [cbn [need]; lia|auto].
+  Qed.
+
+  Lemma dict_local id mo c items st ktid st0 kts cont st' r :
+    own id r -> (0 < id)%Z -> (id < d_next st)%Z -> (base <= d_next st)%Z ->
+    Forall (keyok D F Objs) (map fst items) -> NoDup (map (fun kv => ktext (fst kv)) items) ->
+    Forall (fun kv => is_prop (snd kv) = false) items -> Forall PV (map snd items) ->
+    fresh st = (ktid, st0) -> key_type_states D (map fst items) = Ok kts ->
+    content_of (fun x s0 => get_state D x s0) items [] st0 = Ok (cont, st') ->
+    (forall kv, In kv items -> (need (snd kv) <= r - 1)%nat) -> (3 <= r)%nat ->
+    (d_next st <= d_next st')%Z /\
+    forall fuel m sl n m',
+      build E (get_tree fuel E proto) sl [] (s "_general.DictNode") KDict m (dict_state c mo cont kts ktid id) = Ok (n, m') ->
+      memo_lt m (d_next st) -> Out r (d_next st') n m'.
+  Proof.
+    intros Hown Hid HidB Hb Hkeys Hnd Hprops HQ Hfresh Hkts Hcont Hneed Hr.
+    unfold fresh in Hfresh. injection Hfresh as <- <-.
+    set (st0 := {| d_next := d_next st + 1; d_uuid := d_uuid st; d_members := d_members st; d_late := d_late st |}) in *.
+    destruct (vl_content_states (fun x s0 => get_state D x s0) items [] st0 cont st') as [js [Hstates Hc]]; [| |exact Hcont|].
+    { rewrite Forall_forall in *. intros kv Hkv. split; [apply Hprops; exact Hkv|].
+      destruct (Hkeys (fst kv) (in_map fst _ _ Hkv)) as [sc [tv [E1 _]]]. congruence. }
+    { exact Hnd. }
+    cbn [app] in Hc.
+    destruct (gen_local (map snd items) HQ _ _ _ Hstates ltac:(unfold st0; cbn [d_next]; lia)) as [Hnext [Hlen HG0]].
+    unfold st0 in Hnext; cbn [d_next] in Hnext. split; [lia|].
+    destruct (kt_states _ _ _ Hkts) as [tvs [Htv Hts]].
+    destruct (kt_PV _ _ Htv Hkeys) as [HQt Hnt].
+    intros fuel m sl n m' H Hm.
+    set (j := dict_state c mo cont kts (d_next st) id) in *.
+    assert (Hbd : forall rec, build E rec sl [] (s "_general.DictNode") KDict m j
+            = do (h, m0) <- node_init sl KDict (s "_general.DictNode") [] true m j JNull;
+              do (ktn, m1) <- rec [] (SOne (GetTree.K "key_types")) m0 (list_state kts (d_next st));
+              do (ns, m2) <- sub_dict rec [] (GetTree.K "content") m1 cont;
+              Ok (Node h (ktn :: or_empty (GetTree.K "content") LEmptyDict ns), m2)).
+    { intros rec. reflexivity. }
+    rewrite Hbd in H. unfold j, dict_state in H. rewrite init_eq in H by (try reflexivity; lia). cbn [bind] in H. clear Hbd.
+    destruct (get_tree fuel E proto [] (SOne (GetTree.K "key_types")) (key id :: m) (list_state kts (d_next st))) as [[ktn m1]|] eqn:Ekt;
+      [|discriminate H]. cbn [bind] in H.
+    (* the key_types list *)
+    assert (Hmem2 : memo_mem (key (d_next st)) (key id :: m) = false).
+    { apply (memo_lt_fresh _ (d_next st)); [|lia]. apply memo_lt_cons; [lia|exact Hm]. }
+    destruct fuel as [|fuel]; [discriminate Ekt|].
+    unfold list_state, proto in Ekt.
+    rewrite (gt_step E Hreg fuel (SOne (GetTree.K "key_types")) (key id :: m) _ _ _ _ (d_next st) (s "_general.ListNode") KList) in Ekt;
+      [|reflexivity|cbn; tauto|reflexivity]. rewrite Hmem2 in Ekt.
+    assert (Hx1 : own (d_next st) 2) by (right; lia).
+    assert (Hx3 : (base <= d_next st0)%Z) by (unfold st0; cbn [d_next]; lia).
+    destruct (seq_local QList (d_next st) (s "list") (s "builtins") tvs st0 kts st0 2 Hx1 ltac:(lia) HQt (Hts st0) Hx3
+                ltac:(intros x Hx; cbn; apply Hnt; exact Hx) ltac:(lia)
+                fuel (key id :: m) (SOne (GetTree.K "key_types")) (d_next st0) ktn m1 Ekt) as [Hklt [Hkg Hknl]].
+    { unfold st0; cbn [d_next]. apply memo_lt_cons; [lia|]. eapply memo_lt_le; [|exact Hm]. lia. }
+    { unfold st0; cbn [d_next]. lia. }
+    { lia. }
+    (* the values *)
+    rewrite sub_dict_gen, Hc, map_combine_fst in H.
+    set (sls := map (fun t0 => SKey (GetTree.K "content") t0) (map (fun kv : dkey * pval => ktext (fst kv)) items)) in H.
+    destruct (sub_gen _ (combine sls js) m1) as [[ns m2]|] eqn:Es; [|discriminate H]. cbn [bind] in H. injection H as <- <-.
+    destruct (HG0 _ _ _ _ _ Es) as [Hlt [Hnl Hg]].
+    { unfold sls. rewrite !map_length. reflexivity. }
+    { exact Hklt. }
+    split; [exact Hlt|]. split; [|reflexivity].
+    apply (good_own id); [exact Hown|reflexivity| |lia|].
+    - unfold nice. cbn [mkh h_class h_module h_kind is_jstr andb forallb]. rewrite andb_true_r.
+      replace (leaf_plain ktn) with true by (destruct ktn; [reflexivity|reflexivity|discriminate Hknl]). cbn [andb].
+      destruct ns as [|n1 ns']; [reflexivity|]. cbn [or_empty]. apply vl_plain_of_notleaf. exact Hnl.
+    - constructor; [eapply good_mono; [exact Hkg|lia]|].
+      destruct ns as [|n1 ns']; cbn [or_empty]; [constructor; [apply good_leaf|constructor]|]. apply Hg.
+      intros x Hx. apply in_map_iff in Hx. destruct Hx as [kv [<- Hkv]]. apply Hneed. exact Hkv.
+  Qed.
+
+  Lemma dict_PV id mo c items : Objs (PDict id mo c items) -> items_ok D F Objs items ->
+    Forall PV (map snd items) -> PV (PDict id mo c items).
+  Proof.
+    intros Hv [Hk [Hnd [Hdi Hpr]]] HQ st j st1 H Hb. cbn [get_state] in H.
+    destruct (fresh st) as [ktid st0] eqn:Hfr.
+    destruct (key_type_states D (map fst items)) as [kts|] eqn:Ekt; [|discriminate]. cbn [bind] in H.
+    destruct (content_of _ items [] st0) as [[cont st']|] eqn:Ec; [|discriminate]. cbn [bind] in H. injection H as <- <-.
+    pose proof (Oid _ Hv) as Hid. cbn [pid] in Hid.
+    set (v := PDict id mo c items) in *.
+    destruct (dict_local id mo c items st ktid st0 kts cont st' (need v) (own_obj v Hv) ltac:(lia) ltac:(lia) Hb Hk Hnd Hpr HQ Hfr Ekt Ec)
+      as [Hnext Hnode].
+    { intros kv Hkv. pose proof (max_map_in (fun kv => need (snd kv)) kv items Hkv). cbn [need v]. cbn beta in *. lia. }
+    { cbn [need v]. lia. }
+    split; [exact Hnext|]. unfold dict_state in *.
+    change id with (pid v).
+    apply (wrap v c mo _ _ (s "_general.DictNode") KDict (d_next st) (d_next st')); try assumption; try reflexivity; try (cbn; tauto).
+  Qed.
+
+  Lemma defdict_PV id f items :
+    Objs (PDefDict id (s "collections") (s "defaultdict") f items) -> items_ok D F Objs items ->
+    PV f -> Forall PV (map snd items) -> PV (PDefDict id (s "collections") (s "defaultdict") f items).
+  Proof.
+    intros Hv [Hk [Hnd [Hdi Hpr]]] Hf HQ st j st2 H Hb. cbn [get_state] in H.
+    destruct (fresh st) as [did st0] eqn:Hfr0. destruct (fresh st0) as [ktid st0'] eqn:Hfr.
+    destruct (key_type_states D (map fst items)) as [kts|] eqn:Ekt; [|discriminate]. cbn [bind] in H.
+    destruct (content_of _ items [] st0') as [[cont st1]|] eqn:Ec; [|discriminate]. cbn [bind] in H.
+    destruct (get_state D f st1) as [[fac st']|] eqn:Ef; [|discriminate]. cbn [bind] in H. injection H as <- <-.
+    pose proof (Oid _ Hv) as Hid. cbn [pid] in Hid.
+    assert (Hd : did = d_next st /\ d_next st0 = (d_next st + 1)%Z).
+    { unfold fresh in Hfr0. injection Hfr0 as <- <-. cbn. auto. }
+    destruct Hd as [-> Hn0].
+    set (r := (3 + max_map (fun kv : dkey * pval => need (snd kv)) items)%nat).
+    assert (Hy1 : own (d_next st) r) by (right; lia).
+    destruct (dict_local (d_next st) (s "builtins") (s "dict") items st0 ktid st0' kts cont st1 r Hy1 ltac:(lia) ltac:(lia) ltac:(lia)
+                Hk Hnd Hpr HQ Hfr Ekt Ec) as [Hnext1 Hnode].
+    { intros kv Hkv. pose proof (max_map_in (fun kv => need (snd kv)) kv items Hkv). unfold r. cbn beta in *. lia. }
+    { unfold r. lia. }
+    destruct (Hf _ _ _ Ef ltac:(lia)) as [Hnext2 Hfq].
+    split; [lia|].
+    set (v := PDefDict id (s "collections") (s "defaultdict") f items) in *.
+    change id with (pid v).
+    apply (wrap v _ _ _ _ (s "_general.DefaultDictNode") KDefaultDict (d_next st) (d_next st')); try assumption; try reflexivity; try lia; try (cbn; tauto).
+    intros fuel m sl n m' H Hm.
+    set (mj := dict_state (CodecDump.K "dict") (CodecDump.K "builtins") cont kts ktid (d_next st)) in *.
+    set (j := node_state (s "defaultdict") (s "collections") (CodecDump.K "DefaultDictNode")
+                [(CodecDump.K "content", JObj [(CodecDump.K "main", mj); (CodecDump.K "default_factory", fac)])] (pid v)) in *.
+    assert (Hbd : forall rec, build E rec sl [] (s "_general.DefaultDictNode") KDefaultDict m j
+            = do (h, m0) <- node_init sl KDefaultDict (s "_general.DefaultDictNode") [] true m j JNull;
+              do (a, m1) <- rec [] (SOne (GetTree.K "main")) m0 mj;
+              do (b, m2) <- rec [] (SOne (GetTree.K "default_factory")) m1 fac;
+              Ok (Node h [a; b], m2)).
+    { intros rec. reflexivity. }
+    rewrite Hbd in H. unfold j in H. rewrite init_eq in H by (try reflexivity; cbn [pid v]; lia). cbn [bind] in H. clear Hbd.
+    cbn [pid v] in H.
+    assert (Hm0 : memo_lt (key id :: m) (d_next st)) by (apply memo_lt_cons; [lia|exact Hm]).
+    destruct (get_tree fuel E proto [] (SOne (GetTree.K "main")) (key id :: m) mj) as [[a m1]|] eqn:Ea; [|discriminate H]. cbn [bind] in H.
+    destruct (get_tree fuel E proto [] (SOne (GetTree.K "default_factory")) m1 fac) as [[b m2]|] eqn:Eb; [|discriminate H]. cbn [bind] in H.
+    injection H as <- <-.
+    destruct fuel as [|fuel]; [discriminate Ea|].
+    unfold mj, dict_state, proto in Ea.
+    rewrite (gt_step E Hreg fuel (SOne (GetTree.K "main")) (key id :: m) _ _ _ _ (d_next st) (s "_general.DictNode") KDict) in Ea;
+      [|reflexivity|cbn; tauto|reflexivity].
+    rewrite (memo_lt_fresh _ (d_next st) (d_next st) Hm0 ltac:(lia)) in Ea.
+    destruct (Hnode fuel (key id :: m) (SOne (GetTree.K "main")) a m1 Ea) as [Halt [Hag Hanl]].
+    { eapply memo_lt_le; [|exact Hm0]. lia. }
+    destruct (Hfq _ _ _ _ _ Eb Halt) as [Hblt [Hbg Hbnl]].
+    split; [exact Hblt|]. split; [|reflexivity].
+    apply (good_own (pid v)); [apply own_obj; exact Hv|reflexivity| |apply need_pos|].
+    - unfold nice. cbn [mkh h_class h_module h_kind is_jstr andb]. apply vl_plain_of_notleaf. constructor; [exact Hanl|constructor; [exact Hbnl|constructor]].
+    - cbn [need v]. constructor; [|constructor; [|constructor]].
+      + eapply good_mono; [exact Hag|]. unfold r. lia.
+      + eapply good_mono; [exact Hbg|]. lia.
+  Qed.
+
+  (* ---- values whose node has exactly one child node ---- *)
+  Lemma single_PV v x c mo l (flds : json -> list (pstr * json)) tag k slot :
+    Objs v -> PV x -> (need x < need v)%nat ->
+    In (l, tag) frag_loaders -> kind_of_class tag = Some k ->
+    (forall jx, dget (s "__id__") (flds jx) = None) ->
+    (forall st, get_state D v st = do (jx, st1) <- get_state D x st; Ok (node_state c mo l (flds jx) (pid v), st1)) ->
+    (forall rec sl m jx, build E rec sl [] tag k m (node_state c mo l (flds jx) (pid v))
+                         = do (h, m0) <- node_init sl k tag [] true m (node_state c mo l (flds jx) (pid v)) JNull;
+                           do (n, m1) <- rec [] (SOne slot) m0 jx; Ok (Node h [n], m1)) ->
+    (forall sl ns, Forall (fun n => notleaf n = true) ns -> nice (mkh sl k tag (pid v) c mo JNull) ns = true) ->
+    PV v.
+  Proof.
+    intros Hv Hx Hnd Hl Hk Hf Hget Hbuild Hnice st j st' H Hb. rewrite Hget in H.
+    destruct (get_state D x st) as [[jx st1]|] eqn:Ex; [|discriminate]. cbn [bind] in H. injection H as <- <-.
+    destruct (Hx _ _ _ Ex Hb) as [Hnext HQx]. split; [exact Hnext|].
+    pose proof (Oid _ Hv) as Hid.
+    apply (wrap v c mo l (flds jx) tag k (d_next st) (d_next st1)); try assumption; [apply Hf|].
+    intros fuel m sl n m' H Hm. rewrite Hbuild, init_eq in H by (try apply Hf; lia). cbn [bind] in H.
+    destruct (get_tree fuel E proto [] (SOne slot) (key (pid v) :: m) jx) as [[n1 m1]|] eqn:Eg; [|discriminate H]. cbn [bind] in H.
+    injection H as <- <-.
+    destruct (HQx _ _ _ _ _ Eg) as [Hlt [Hg Hnl]]; [apply memo_lt_cons; [lia|exact Hm]|].
+    split; [exact Hlt|]. split; [|reflexivity].
+    apply (good_own (pid v)); [apply own_obj; exact Hv|reflexivity| |apply need_pos|].
+    - apply Hnice. constructor; [exact Hnl|constructor].
+    - constructor; [|constructor]. eapply good_mono; [exact Hg|lia].
+  Qed.
+
+  (* ---- values whose node has a fixed list of child nodes ---- *)
+  Lemma multi_PV v xs sls c mo l (flds : list json -> list (pstr * json)) tag k :
+    Objs v -> Forall PV xs -> length sls = length xs ->
+    (forall x, In x xs -> (need x < need v)%nat) ->
+    In (l, tag) frag_loaders -> kind_of_class tag = Some k ->
+    (forall js, dget (s "__id__") (flds js) = None) ->
+    (forall st, get_state D v st = do (js, st1) <- states_of (fun x s0 => get_state D x s0) xs st; Ok (node_state c mo l (flds js) (pid v), st1)) ->
+    (forall rec sl m js, length js = length xs ->
+       build E rec sl [] tag k m (node_state c mo l (flds js) (pid v))
+       = do (h, m0) <- node_init sl k tag [] true m (node_state c mo l (flds js) (pid v)) JNull;
+         do (ns, m1) <- sub_gen (rec []) (combine sls js) m0; Ok (Node h ns, m1)) ->
+    (forall sl ns, Forall (fun n => notleaf n = true) ns -> nice (mkh sl k tag (pid v) c mo JNull) ns = true) ->
+    PV v.
+  Proof.
+    intros Hv Hxs Hlen Hsz Hl Hk Hf Hget Hbuild Hnice st j st' H Hb. rewrite Hget in H.
+    destruct (states_of _ xs st) as [[js st1]|] eqn:Ex; [|discriminate]. cbn [bind] in H. injection H as <- <-.
+    destruct (gen_local xs Hxs _ _ _ Ex Hb) as [Hnext [Hjl HG0]]. split; [exact Hnext|].
+    pose proof (Oid _ Hv) as Hid.
+    apply (wrap v c mo l (flds js) tag k (d_next st) (d_next st1)); try assumption; [apply Hf|].
+    intros fuel m sl n m' H Hm. rewrite (Hbuild _ _ _ _ Hjl), init_eq in H by (try apply Hf; lia). cbn [bind] in H.
+    destruct (sub_gen _ (combine sls js) (key (pid v) :: m)) as [[ns m1]|] eqn:Eg; [|discriminate H]. cbn [bind] in H.
+    injection H as <- <-.
+    destruct (HG0 _ _ _ _ _ Eg Hlen) as [Hlt [Hnl Hg]]; [apply memo_lt_cons; [lia|exact Hm]|].
+    split; [exact Hlt|]. split; [|reflexivity].
+    apply (good_own (pid v)); [apply own_obj; exact Hv|reflexivity|apply Hnice; exact Hnl|apply need_pos|].
+    apply Hg. intros x Hx. specialize (Hsz x Hx). lia.
+  Qed.
+
+  Lemma nice_plain sl k tag id c mo ns :
+    match k with KJson | KSlice | KFunction | KFunctionV0 | KMethod | KRandomGeneratorV0 | KDict => False | _ => True end ->
+    Forall (fun n => notleaf n = true) ns -> nice (mkh sl k tag id c mo JNull) ns = true.
+  Proof.
+    intros Hk Hns. unfold nice. cbn [mkh h_class h_module h_kind is_jstr andb].
+    destruct k; try contradiction; apply vl_plain_of_notleaf; exact Hns.
+  Qed.
+
+  Ltac two_states := intros st0; cbn [get_state states_of];
+    repeat match goal with |- context [get_state D ?x ?s0] => destruct (get_state D x s0) as [[? ?]|]; cbn [bind]; [|reflexivity] end; reflexivity.
+
+  Lemma masked_PV id d k : Objs (PMasked id (s "numpy.ma") (s "MaskedArray") d k) -> PV d -> PV k ->
+    PV (PMasked id (s "numpy.ma") (s "MaskedArray") d k).
+  Proof.
+    intros Hv Hd Hk0.
+    apply (multi_PV (PMasked id (s "numpy.ma") (s "MaskedArray") d k) [d; k] [SOne (GetTree.K "data"); SOne (GetTree.K "mask")]
+             (s "MaskedArray") (s "numpy.ma") (CodecDump.K "MaskedArrayNode")
+             (fun js => match js with [jd; jm] => [(CodecDump.K "content", JObj [(CodecDump.K "data", jd); (CodecDump.K "mask", jm)])] | _ => [] end)
+             (s "_numpy.MaskedArrayNode") KMaskedArray); try assumption; try reflexivity.
+    - constructor; [exact Hd|constructor; [exact Hk0|constructor]].
+    - intros x [<-|[<-|[]]]; cbn [need]; lia.
+    - cbn; tauto.
+    - intros [|jd [|jm [|? ?]]]; reflexivity.
+    - two_states.
+    - intros rec sl m [|jd [|jm [|? ?]]] Hl; try discriminate Hl. unfold build, content_child.
+      destruct (node_init _ _ _ _ _ _ _ _) as [[h m0]|]; [|reflexivity]. cbn [bind combine sub_gen].
+      change (jindex (node_state (s "MaskedArray") (s "numpy.ma") (CodecDump.K "MaskedArrayNode")
+                [(CodecDump.K "content", JObj [(CodecDump.K "data", jd); (CodecDump.K "mask", jm)])] (pid (PMasked id (s "numpy.ma") (s "MaskedArray") d k))) (GetTree.K "content"))
+        with (Ok (A:=json) (JObj [(CodecDump.K "data", jd); (CodecDump.K "mask", jm)])). cbn [bind].
+      change (jindex (JObj [(CodecDump.K "data", jd); (CodecDump.K "mask", jm)]) (GetTree.K "data")) with (Ok (A:=json) jd).
+      change (jindex (JObj [(CodecDump.K "data", jd); (CodecDump.K "mask", jm)]) (GetTree.K "mask")) with (Ok (A:=json) jm). cbn [bind].
+      destruct (rec [] (SOne (GetTree.K "data")) m0 jd) as [[a m1]|]; [|reflexivity]. cbn [bind].
+      destruct (rec [] (SOne (GetTree.K "mask")) m1 jm) as [[b m2]|]; reflexivity.
+    - intros sl ns. apply nice_plain. exact I.
+  Qed.
+
+  Lemma randgen_PV id mo c bg ss : Objs (PRandGen id mo c bg ss) -> PV bg -> PV ss -> PV (PRandGen id mo c bg ss).
+  Proof.
+    intros Hv Hb0 Hs0.
+    apply (multi_PV (PRandGen id mo c bg ss) [bg; ss] [SOne (GetTree.K "bit_generator_state"); SOne (GetTree.K "seed_seq_state")]
+             c mo (CodecDump.K "RandomGeneratorNode")
+             (fun js => match js with [jb; js0] => [(CodecDump.K "content", JObj [(CodecDump.K "bit_generator", jb); (CodecDump.K "seed_seq", js0)])] | _ => [] end)
+             (s "_numpy.RandomGeneratorNode") KRandomGenerator); try assumption; try reflexivity.
+    - constructor; [exact Hb0|constructor; [exact Hs0|constructor]].
+    - intros x [<-|[<-|[]]]; cbn [need]; lia.
+    - cbn; tauto.
+    - intros [|jd [|jm [|? ?]]]; reflexivity.
+    - two_states.
+    - intros rec sl m [|jd [|jm [|? ?]]] Hl; try discriminate Hl. unfold build, content_child.
+      destruct (node_init _ _ _ _ _ _ _ _) as [[h m0]|]; [|reflexivity]. cbn [bind combine sub_gen].
+      change (jindex (node_state c mo (CodecDump.K "RandomGeneratorNode")
+                [(CodecDump.K "content", JObj [(CodecDump.K "bit_generator", jd); (CodecDump.K "seed_seq", jm)])] (pid (PRandGen id mo c bg ss))) (GetTree.K "content"))
+        with (Ok (A:=json) (JObj [(CodecDump.K "bit_generator", jd); (CodecDump.K "seed_seq", jm)])). cbn [bind].
+      change (jindex (JObj [(CodecDump.K "bit_generator", jd); (CodecDump.K "seed_seq", jm)]) (GetTree.K "bit_generator")) with (Ok (A:=json) jd).
+      change (jindex (JObj [(CodecDump.K "bit_generator", jd); (CodecDump.K "seed_seq", jm)]) (GetTree.K "seed_seq")) with (Ok (A:=json) jm). cbn [bind].
+      destruct (rec [] (SOne (GetTree.K "bit_generator_state")) m0 jd) as [[a m1]|]; [|reflexivity]. cbn [bind].
+      destruct (rec [] (SOne (GetTree.K "seed_seq_state")) m1 jm) as [[b m2]|]; reflexivity.
+    - intros sl ns. apply nice_plain. exact I.
+  Qed.
+
+  Lemma randstate_PV id mo c x : Objs (PRandState id mo c x) -> PV x -> PV (PRandState id mo c x).
+  Proof.
+    intros Hv Hx.
+    apply (single_PV (PRandState id mo c x) x c mo (CodecDump.K "RandomStateNode") (fun jx => [(CodecDump.K "content", jx)])
+             (s "_numpy.RandomStateNode") KRandomState (GetTree.K "content")); try assumption; try reflexivity;
+      try (cbn [need]; lia); [cbn; tauto|].
+    intros sl ns. apply nice_plain. exact I.
+  Qed.
+
+  Lemma partial_PV id f a k n : Objs (PPartial id (s "functools") (s "partial") f a k n) ->
+    PV f -> PV a -> PV k -> PV n -> PV (PPartial id (s "functools") (s "partial") f a k n).
+  Proof.
+    intros Hv Hf Ha Hk0 Hn0.
+    apply (multi_PV (PPartial id (s "functools") (s "partial") f a k n) [f; a; k; n]
+             [SOne (GetTree.K "func"); SOne (GetTree.K "args"); SOne (GetTree.K "kwds"); SOne (GetTree.K "namespace")]
+             (s "partial") (s "functools") (CodecDump.K "PartialNode")
+             (fun js => match js with [jf; ja; jk; jn] =>
+                          [(CodecDump.K "content", JObj [(CodecDump.K "func", jf); (CodecDump.K "args", ja); (CodecDump.K "kwds", jk); (CodecDump.K "namespace", jn)])]
+                        | _ => [] end)
+             (s "_general.PartialNode") KPartial); try assumption; try reflexivity.
+    - constructor; [exact Hf|constructor; [exact Ha|constructor; [exact Hk0|constructor; [exact Hn0|constructor]]]].
+    - intros x [<-|[<-|[<-|[<-|[]]]]]; cbn [need]; lia.
+    - cbn; tauto.
+    - intros [|j1 [|j2 [|j3 [|j4 [|? ?]]]]]; reflexivity.
+    - two_states.
+    - intros rec sl m [|j1 [|j2 [|j3 [|j4 [|? ?]]]]] Hl; try discriminate Hl. unfold build, content_child.
+      destruct (node_init _ _ _ _ _ _ _ _) as [[h m0]|]; [|reflexivity]. cbn [bind combine sub_gen].
+      set (cj := JObj [(CodecDump.K "func", j1); (CodecDump.K "args", j2); (CodecDump.K "kwds", j3); (CodecDump.K "namespace", j4)]).
+      change (jindex (node_state (s "partial") (s "functools") (CodecDump.K "PartialNode") [(CodecDump.K "content", cj)]
+                (pid (PPartial id (s "functools") (s "partial") f a k n))) (GetTree.K "content")) with (Ok (A:=json) cj). cbn [bind].
+      change (jindex cj (GetTree.K "func")) with (Ok (A:=json) j1). change (jindex cj (GetTree.K "args")) with (Ok (A:=json) j2).
+      change (jindex cj (GetTree.K "kwds")) with (Ok (A:=json) j3). change (jindex cj (GetTree.K "namespace")) with (Ok (A:=json) j4). cbn [bind].
+      destruct (rec [] (SOne (GetTree.K "func")) m0 j1) as [[n1 m1]|]; [|reflexivity]. cbn [bind].
+      destruct (rec [] (SOne (GetTree.K "args")) m1 j2) as [[n2 m2]|]; [|reflexivity]. cbn [bind].
+      destruct (rec [] (SOne (GetTree.K "kwds")) m2 j3) as [[n3 m3]|]; [|reflexivity]. cbn [bind].
+      destruct (rec [] (SOne (GetTree.K "namespace")) m3 j4) as [[n4 m4]|]; reflexivity.
+    - intros sl ns. apply nice_plain. exact I.
+  Qed.
+
+  Lemma opfunc_PV id c attrs : Objs (POpFunc id c attrs) -> PV attrs -> PV (POpFunc id c attrs).
+  Proof.
+    intros Hv Ha.
+    apply (single_PV (POpFunc id c attrs) attrs c (s "operator") (CodecDump.K "OperatorFuncNode") (fun jx => [(CodecDump.K "attrs", jx)])
+             (s "_general.OperatorFuncNode") KOperatorFunc (GetTree.K "attrs")); try assumption; try reflexivity;
+      try (cbn [need]; lia); [cbn; tauto|].
+    intros sl ns. apply nice_plain. exact I.
+  Qed.
+
+  (* a dtype travels as an empty carrier array the dumper creates *)
+  Lemma dtype_PV id tok : Objs (PDType id tok) -> PV (PDType id tok).
+  Proof.
+    intros Hv st j st1 H Hb. cbn [get_state] in H. destruct (fresh st) as [tid st0] eqn:Hfr. injection H as <- <-.
+    assert (Hd : tid = d_next st /\ d_next st0 = (d_next st + 1)%Z).
+    { unfold fresh in Hfr. injection Hfr as <- <-. cbn. auto. }
+    destruct Hd as [-> Hn0]. set (tid := d_next st) in *.
+    set (v := PDType id tok). set (f := npy_name tid).
+    rewrite next_write. split; [lia|].
+    pose proof (Oid _ Hv) as Hid. cbn [pid] in Hid.
+    set (ji := node_state (CodecDump.K "ndarray") (CodecDump.K "numpy") (CodecDump.K "NdArrayNode")
+                 [(CodecDump.K "type", JStr (CodecDump.K "numpy")); (CodecDump.K "file", JStr f)] tid).
+    change (forall fuel m sl n m', get_tree fuel E proto [] sl m (node_state (CodecDump.K "dtype") (CodecDump.K "numpy") (CodecDump.K "DTypeNode")
+                  [(CodecDump.K "content", ji)] (pid v)) = Ok (n, m') -> memo_lt m tid -> Out (need v) (d_next st0) n m').
+    apply (wrap v _ _ _ _ (s "_numpy.DTypeNode") KDType tid (d_next st0)); try assumption; try reflexivity; try (unfold tid; lia); try (cbn; tauto).
+    intros fuel m sl n m' H Hm. cbn [pid v] in H.
+    set (jv := node_state (CodecDump.K "dtype") (CodecDump.K "numpy") (CodecDump.K "DTypeNode") [(CodecDump.K "content", ji)] id) in *.
+    assert (Hbd : forall rec, build E rec sl [] (s "_numpy.DTypeNode") KDType m jv
+            = do (h, m0) <- node_init sl KDType (s "_numpy.DTypeNode") [] true m jv JNull;
+              do (n, m1) <- rec [] (SOne (GetTree.K "content")) m0 ji; Ok (Node h [n], m1)).
+    { intros rec. reflexivity. }
+    rewrite Hbd in H. unfold jv in H. rewrite init_eq in H by (try reflexivity; lia). cbn [bind] in H. clear Hbd.
+    assert (Hm0 : memo_lt (key id :: m) tid) by (apply memo_lt_cons; [unfold tid; lia|exact Hm]).
+    destruct (get_tree fuel E proto [] (SOne (GetTree.K "content")) (key id :: m) ji) as [[inner m1]|] eqn:Ei; [|discriminate H].
+    cbn [bind] in H. injection H as <- <-.
+    destruct fuel as [|fuel]; [discriminate Ei|].
+    unfold ji, proto in Ei.
+    rewrite (gt_step E Hreg fuel (SOne (GetTree.K "content")) (key id :: m) _ _ _ _ tid (s "_numpy.NdArrayNode") KNdArray) in Ei;
+      [|reflexivity|cbn; tauto|reflexivity].
+    rewrite (memo_lt_fresh _ tid tid Hm0 ltac:(lia)) in Ei.
+    fold ji in Ei.
+    assert (Hbi : build E (get_tree fuel E (JInt (e_cur E))) (SOne (GetTree.K "content")) [] (s "_numpy.NdArrayNode") KNdArray (key id :: m) ji
+            = do (h, m0) <- node_init (SOne (GetTree.K "content")) KNdArray (s "_numpy.NdArrayNode") [] true (key id :: m) ji JNull;
+              do _ <- read_member E (JStr f); Ok (Node (set_aux h (JStr (GetTree.K "numpy"))) [Leaf (SOne (GetTree.K "content")) LBytes], m0)).
+    { unfold build. destruct (node_init _ _ _ _ _ _ _ _) as [[h m0]|]; reflexivity. }
+    rewrite Hbi in Ei. unfold ji in Ei. rewrite init_eq in Ei by (try reflexivity; unfold tid; lia). cbn [bind] in Ei. clear Hbi.
+    destruct (read_member E (JStr f)) as [[]|]; [|discriminate Ei]. cbn [bind] in Ei. injection Ei as <- <-.
+    split; [apply memo_lt_cons; [unfold tid; lia|]; apply memo_lt_cons; [lia|]; eapply memo_lt_le; [|exact Hm]; unfold tid; lia|].
+    split; [|reflexivity].
+    apply (good_own (pid v)); [apply own_obj; exact Hv|reflexivity|reflexivity|apply need_pos|].
+    constructor; [|constructor]. cbn [need v].
+    apply (good_alloc base Objs _ _ _ tid); [unfold tid; lia|reflexivity|reflexivity|lia|].
+    constructor; [apply good_leaf|constructor].
+  Qed.
+
+  (* ---- assembling ---- *)
+  Theorem vok_good : forall v, vok D F Objs v -> PV v.
+  Proof.
+    apply (pval_ind' (fun v => vok D F Objs v -> PV v)).
+    - intros v Hl Hv. destruct v; try discriminate Hl; cbn [vok] in Hv; destruct Hv as [Ho Hv]; try contradiction.
+      + apply scalar_PV; assumption.
+      + apply slice_PV; assumption.
+      + apply arr_PV; assumption.
+      + apply dtype_PV; assumption.
+      + apply sparse_PV; assumption.
+      + apply func_PV; assumption.
+      + apply type_PV; assumption.
+    - intros q id mo c nt l IH [Ho [-> [-> [Hc Hall]]]]. apply seq_PV; [exact Ho|].
+      eapply Forall_imp2; [exact IH|apply vok_all; exact Hall].
+    - intros id mo c l IH [Ho [Hc [Hi Hvals]]]. apply dict_PV; try assumption.
+      apply Forall_map_snd. eapply Forall_imp2; [exact IH|apply vok_vals; exact Hvals].
+    - intros id mo c f l IHf IH [Ho [-> [-> [Hi [Hf Hvals]]]]]. apply defdict_PV; try assumption; [apply IHf; exact Hf|].
+      apply Forall_map_snd. eapply Forall_imp2; [exact IH|apply vok_vals; exact Hvals].
+    - intros; cbn [vok] in *; tauto.
+    - intros id mo c d k IHd IHk [Ho [-> [-> [Hd Hk0]]]]. apply masked_PV; auto.
+    - intros id mo c x IHx [Ho [Hr Hx]]. apply randstate_PV; auto.
+    - intros id mo c x y IHx IHy [Ho [Hr [Hx Hy]]]. apply randgen_PV; auto.
+    - intros id mo c f a k n IHf IHa IHk IHn [Ho [-> [-> [Hok [Hf [Ha [Hk0 Hn0]]]]]]]. apply partial_PV; auto.
+    - intros id c a IHa [Ho [Hr [Hok Hva]]]. apply opfunc_PV; try assumption. apply IHa. exact Hva.
+    - intros; cbn [vok] in *; tauto.
+    - intros; cbn [vok] in *; tauto.
+  Qed.
+
+End Local.
 
 (* ================= the node graph: bounded depth through references ================= *)
 Section Graph.
@@ -674,7 +1411,16 @@ Proof.
   rewrite (traverse_lvl sh _ _ Hlv). reflexivity.
 Qed.
 
-(* ================= ranked trees (VisTotalPre.good) have bounded depth through references ================= *)
+(* show modes that agree on the rows below the root give the same result *)
+Lemma traverse_ext sh1 sh2 : forall rows prev tail, Forall (fun x => visible sh1 x = visible sh2 x) rows ->
+  traverse sh1 prev rows tail = traverse sh2 prev rows tail.
+Proof.
+  induction rows as [|r rs IH]; intros prev tail H; [reflexivity|]. inversion H as [|? ? Hr Hrs]; subst.
+  cbn [traverse]. rewrite Hr. destruct (visible sh2 r); cbn [negb]; [|apply IH; exact Hrs].
+  destruct (Nat.ltb (S prev) (r_level r)); [reflexivity|]. rewrite (IH _ _ Hrs). reflexivity.
+Qed.
+
+(* ================= ranked trees (good) have bounded depth through references ================= *)
 Section GoodGraph.
   Variable base : Z.
   Variable Objs : pval -> Prop.
@@ -772,7 +1518,8 @@ Section Dumped.
     visualize_rows E skipped (a_schema a) T = Ok (r :: rs)
     /\ visualize E skipped (a_schema a) T ShowAll = Ok (r :: rs)
     /\ visualize E skipped (a_schema a) T ShowUntrusted = Ok (r :: filter (fun x => negb (r_safe x)) rs)
-    /\ r_level r = O.
+    /\ r_level r = O
+    /\ (Forall (fun x => r_self_safe x = true) rs -> visualize E skipped (a_schema a) T ShowTrusted = Ok (r :: rs)).
   Proof.
     destruct dumped_tree as [t [m [Hrt [Hgood [Hnl [Hn [Ofun Oid]]]]]]].
     pose proof (root_tree_ids_unique _ _ _ _ Hrt) as ND. pose proof (root_refs_resolve _ _ _ _ Hrt) as Hres.
@@ -789,10 +1536,14 @@ Section Dumped.
     destruct (fst st) as [|r rs] eqn:Hfst; [exfalso; apply (walk_node_nonempty E T skipped t walk_fuel [] (s "root") 0%nat false h subs W1); exact Hfst|].
     assert (Hr0 : r_level r = O) by (inversion W2; assumption).
     assert (HW : WOK (r_level r) st) by (rewrite Hr0; split; [exact W1|rewrite Hfst; exact W2]).
-    exists r, rs. split; [|split; [|split; [|exact Hr0]]].
+    assert (HAll : visualize E skipped (a_schema a) T ShowAll = Ok (r :: rs)).
+    { unfold visualize. rewrite Hst. cbn [bind]. rewrite (traverse_all_forest ShowAll st r rs sh_ok_all HW Hfst).
+      change (visible ShowAll) with (fun _ : row => true). rewrite filter_all. reflexivity. }
+    exists r, rs. split; [|split; [exact HAll|split; [|split; [exact Hr0|]]]].
     - unfold visualize_rows. rewrite Hst. cbn [bind]. rewrite W1, Hfst. reflexivity.
-    - unfold visualize. rewrite Hst. cbn [bind]. rewrite (traverse_all_forest ShowAll st r rs sh_ok_all HW Hfst).
-      change (visible ShowAll) with (fun _ : row => true). rewrite filter_all. reflexivity.
     - unfold visualize. rewrite Hst. cbn [bind]. rewrite (traverse_all_forest ShowUntrusted st r rs sh_ok_untrusted HW Hfst). reflexivity.
+    - intros Hall. rewrite <- HAll. unfold visualize. rewrite Hst. cbn [bind]. unfold traverse_all. rewrite Hfst.
+      rewrite (traverse_ext ShowTrusted ShowAll rs (r_level r) (snd st)); [reflexivity|].
+      eapply Forall_impl; [|exact Hall]. intros x Hx. cbn [visible]. exact Hx.
   Qed.
 End Dumped.
